@@ -158,7 +158,9 @@ def _run_tlc_once(module, cfg=None, workers=None, timeout=900, simulate=None, de
             f.write(cfg_text)
     workers = workers or min(12, NCPU)
     libpath = os.pathsep.join([SPEC, os.path.join(SPEC, "mc"), os.path.join(SPEC, "trace")])
-    cmd = ["java", "-XX:+UseParallelGC", "-Xmx" + heap, "-Xss1g", "-DTLA-Library=" + libpath]
+    # (java.io.tmpdir: TLC unpacks the standard modules it parses into a fresh directory per run; keep that inside the
+    # run's own scratch directory, which is removed afterwards, instead of littering /tmp)
+    cmd = ["java", "-XX:+UseParallelGC", "-Xmx" + heap, "-Xss1g", "-Djava.io.tmpdir=" + meta, "-DTLA-Library=" + libpath]
     cmd += ["-cp", TLC_JAR, "tlc2.TLC"]
     cmd += ["-workers", str(workers), "-metadir", meta, "-cleanup", "-noGenerateSpecTE"]
     if not deadlock:
@@ -252,7 +254,7 @@ def run_trace_spec(module, trace_path, timeout=600, cfg=None, heap="4g"):
     cfg_path = os.path.join(SPEC, "trace", (cfg or module) + ".cfg")
     meta = tempfile.mkdtemp(prefix="tlctrace-", dir=scratch())
     libpath = os.pathsep.join([SPEC, os.path.join(SPEC, "mc"), os.path.join(SPEC, "trace")])
-    cmd = ["java", "-XX:+UseParallelGC", "-Xmx" + heap, "-Xss1g",
+    cmd = ["java", "-XX:+UseParallelGC", "-Xmx" + heap, "-Xss1g", "-Djava.io.tmpdir=" + meta,
            "-Dtlc2.tool.queue.IStateQueue=StateDeque", "-DTLA-Library=" + libpath,
            "-cp", TLC_JAR, "tlc2.TLC", "-workers", "1", "-metadir", meta, "-cleanup",
            "-noGenerateSpecTE", "-deadlock", "-config", cfg_path, mod_path]
